@@ -2875,6 +2875,16 @@ func (p *Posix) PutObject(ctx context.Context, po s3response.PutObjectInput) (s3
 		}
 	}
 
+	// The body has been received and verified: preserve the current
+	// version now, before any attribute of the new object is stored (the
+	// sidecar metadata store writes attributes by object path).
+	if preserveCurrentVersion {
+		_, err := p.createObjVersion(*po.Bucket, *po.Key, d.Size(), acct)
+		if err != nil {
+			return s3response.PutObjectOutput{}, fmt.Errorf("create object version: %w", err)
+		}
+	}
+
 	dir := filepath.Dir(name)
 	if dir != "" {
 		err = backend.MkdirAll(dir, uid, gid, doChown, p.newDirPerm)
@@ -2964,13 +2974,6 @@ func (p *Posix) PutObject(ctx context.Context, po s3response.PutObjectInput) (s3
 		err := p.meta.StoreAttribute(f.File(), *po.Bucket, *po.Key, versionIdKey, []byte(versionID))
 		if err != nil {
 			return s3response.PutObjectOutput{}, fmt.Errorf("set versionId attr: %w", err)
-		}
-	}
-
-	if preserveCurrentVersion {
-		_, err := p.createObjVersion(*po.Bucket, *po.Key, d.Size(), acct)
-		if err != nil {
-			return s3response.PutObjectOutput{}, fmt.Errorf("create object version: %w", err)
 		}
 	}
 
